@@ -468,7 +468,8 @@ class World:
             lo, hi = pts.min(0), pts.max(0)
             tol = 1e-9 * (hi - lo).max()
             onb = np.any((np.abs(pts - lo) < tol) | (np.abs(pts - hi) < tol), axis=1)
-            b = {"patch": fem.Boundary(f0, mask=onb, value=np.zeros((int(onb.sum()), f0.dim)))}
+            v0 = 0.0 if bc.get("init") == "scalar" else np.zeros((int(onb.sum()), f0.dim))
+            b = {"patch": fem.Boundary(f0, mask=onb, value=v0)}
             self.patch_points = np.arange(self.mesh.npoints)[onb]
             ramp_bc["patch"] = b["patch"]
             return b, ramp_bc
@@ -513,6 +514,8 @@ class World:
                 vals = np.asarray(vals)
             elif all(np.isscalar(v) for v in vals):
                 vals = np.asarray(vals, dtype=float)
+            elif all(isinstance(v, np.ndarray) for v in vals) and len({v.shape for v in vals}) == 1:
+                vals = np.asarray(vals, dtype=float)  # one table, a row per substep
             ramp[obj] = vals
         bnames = s.get("boundaries")
         if bnames is None:
